@@ -62,6 +62,7 @@ func Emit(r Result) {
 		b, _ = json.Marshal(Result{T: "note", What: "unmarshalable result: " + err.Error(), Case: r.Case})
 	}
 	b = append(b, '\n')
+	Beat()
 	mu.Lock()
 	if out == nil {
 		out = os.Stdout
